@@ -139,7 +139,7 @@ def _worker(args):
     harness = []
     import signal
 
-    class _RunTimeout(Exception):
+    class _RunTimeout(BaseException):  # not an Exception: no "except Exception" in a check may swallow the watchdog
         pass
 
     def _on_alarm(signum, frame):
